@@ -660,6 +660,63 @@ func (si *symInterp) stmt(st ast.Stmt, fr *symFrame, s *symState) []*symState {
 		}
 		return out
 	}
+	// an expressionless switch without fallthrough/break is an if/else-if chain
+	if sw, ok := st.(*ast.SwitchStmt); ok && sw.Tag == nil && sw.Body != nil {
+		plain := true
+		var def *ast.CaseClause
+		var clauses []*ast.CaseClause
+		for _, cc := range sw.Body.List {
+			cl := cc.(*ast.CaseClause)
+			for _, b := range cl.Body {
+				ast.Inspect(b, func(n ast.Node) bool {
+					switch x := n.(type) {
+					case *ast.BranchStmt:
+						if x.Tok == token.FALLTHROUGH || (x.Tok == token.BREAK && x.Label == nil) {
+							plain = false
+						}
+					case *ast.ForStmt, *ast.RangeStmt, *ast.SwitchStmt, *ast.TypeSwitchStmt, *ast.SelectStmt, *ast.FuncLit:
+						return false // a break inside belongs to that statement
+					}
+					return true
+				})
+			}
+			if cl.List == nil {
+				def = cl
+			} else {
+				clauses = append(clauses, cl)
+			}
+		}
+		if plain {
+			var chain ast.Stmt
+			if def != nil {
+				chain = &ast.BlockStmt{Lbrace: def.Pos(), List: def.Body}
+			}
+			for i := len(clauses) - 1; i >= 0; i-- {
+				cl := clauses[i]
+				cond := cl.List[0]
+				for _, e := range cl.List[1:] {
+					cond = &ast.BinaryExpr{X: cond, OpPos: e.Pos(), Op: token.LOR, Y: e}
+				}
+				chain = &ast.IfStmt{If: cl.Pos(), Cond: cond, Body: &ast.BlockStmt{Lbrace: cl.Colon, List: cl.Body}, Else: chain}
+			}
+			cur := one
+			if sw.Init != nil {
+				cur = si.stmt(sw.Init, fr, s)
+			}
+			if chain == nil {
+				return cur
+			}
+			var out []*symState
+			for _, c := range cur {
+				if c.done || c.panics {
+					out = append(out, c)
+					continue
+				}
+				out = append(out, si.stmt(chain, fr, c)...)
+			}
+			return out
+		}
+	}
 	switch loop := st.(type) {
 	case *ast.ForStmt, *ast.RangeStmt:
 		// loops are outside the domain: every variable assigned inside becomes an unknown
@@ -840,9 +897,13 @@ func isCurrencyRecv(fn *types.Func) bool {
 func loopFree(fd *ast.FuncDecl) bool {
 	ok := true
 	ast.Inspect(fd.Body, func(n ast.Node) bool {
-		switch n.(type) {
-		case *ast.ForStmt, *ast.RangeStmt, *ast.GoStmt, *ast.DeferStmt, *ast.SelectStmt, *ast.SwitchStmt, *ast.TypeSwitchStmt, *ast.FuncLit:
+		switch x := n.(type) {
+		case *ast.ForStmt, *ast.RangeStmt, *ast.GoStmt, *ast.DeferStmt, *ast.SelectStmt, *ast.TypeSwitchStmt, *ast.FuncLit:
 			ok = false
+		case *ast.SwitchStmt:
+			if x.Tag != nil {
+				ok = false // only the expressionless form is interpreted (as an if/else-if chain)
+			}
 		}
 		return ok
 	})
